@@ -22,7 +22,7 @@ static inline void unpoison(const void*, size_t) {}
 #endif
 
 namespace env {
-enum { MAXT = 4, NGEN = 3 };
+enum { MAXT = 8, NGEN = 3 };
 static const u8 STACK_PATTERN = 0x5A;
 static const u64 DEFAULT_CLOCK = 1700000000ull;
 static const u64 STEP_BUDGET = 5000000ull;
@@ -37,6 +37,10 @@ struct EnvState {
     bool monitor = false;
     bool in_inject = false;
     bool norm_full_len = false;
+    bool misalign = false;          // allocator hands out blocks that are 8 but not 16 byte aligned
+    bool lifo_reuse = false;        // allocator reuses the address of the block released last (same size)
+    bool no_race_oracle = false;
+    bool report_races = false, report_ownership = false;   // the monitor also runs (for access-chasing) in concurrent plans of checks that do not own oracles (R)/(O)    // the sources use atomics: oracle (R) has no happens-before model for them
     bool in_setup = false;
     std::vector<Block> blocks;
     OpRec* coord_rec = nullptr;
@@ -48,6 +52,7 @@ struct EnvState {
     u64 shared_stores = 0;
     u64 mon_accesses = 0;
     u64 under_lock_accesses = 0;
+    int last_freed = -1;
     u64 seam_count[EV_NKINDS] = {0};
     const u8* watch_p = nullptr; size_t watch_n = 0; u64 watch_hits = 0; bool watch_armed = false;   // caller's key buffer during polyseed_keygen
     int task_blk_seq[MAXT + 1] = {0};
